@@ -46,7 +46,7 @@ THEOREMS = [
     'C02.dvectApi_eq_arr', 'C02.dvectApi_ok_iff', 'C02.dvectApi_type_iff', 'C02.dvectApi_flag_forms', 'C02.dmag2Api_eq',
     'C02.api_dvect_end_to_end', 'C02.api_dmag_end_to_end', 'C02.displacement_ok_iff', 'C02.api_displacement_end_to_end',
     'C02.api_system_end_to_end', 'C02.pbcSetter_ok_iff', 'C02.dvectApi_flat_eq_rows', 'C02.dvectApi_error_class',
-    'C02.World.disp_source', 'C02.World.sysDvect_source',
+    'C02.World.disp_source', 'C02.World.sysDvect_source', 'C02.source_true_nearest_ortho', 'C02.source_true_nearest_tilted',
 ]
 PARTIAL = {}
 RULE = ('cells: diagonal, rotated/left-handed mutually orthogonal, LAMMPS-triclinic, general 3x3 (det != 0), strongly '
